@@ -567,6 +567,8 @@ class Client(base_client.BaseClient):
                     raise ValueError('Binary packet without attachment '
                                      'count.')
                 # a binary packet that announces no attachments is complete
+                # (and a placeholder in it refers to nothing)
+                pkt.reconstruct_binary([])
                 if pkt.packet_type == packet.BINARY_EVENT:
                     pkt.packet_type = packet.EVENT
                 else:
